@@ -147,6 +147,27 @@ func cmdCheck(args []string) int {
 			violations++
 		}
 	}
+	// return statements whose postconditions were discharged on infeasible paths only
+	var deadReturns []string
+	coverChecked := 0
+	for _, r := range results {
+		coverChecked += r.CoverChecked
+		sort.Strings(r.DeadReturns)
+		for _, p := range r.DeadReturns {
+			deadReturns = append(deadReturns, r.Key+" @ "+strings.TrimPrefix(p, L.repoDir+"/"))
+		}
+	}
+	for _, d := range deadReturns {
+		ok := false
+		for suf := range ps.DeadOK {
+			if strings.HasSuffix(d, suf) {
+				ok = true
+			}
+		}
+		if !ok {
+			fmt.Printf("VACUITY-WARNING unreachable return %s (every path to it contradicts the contracts and assumptions: postconditions there hold vacuously; review, then list it under unreachable-ok in the spec)\n", d)
+		}
+	}
 	var newBaseline []string
 	replays := 0
 	const maxReplays = 6
@@ -353,6 +374,18 @@ func writeEvidence(id, tier string, ps *PropSpec, cs *ContractSet, results []*Fu
 	}
 	for _, n := range ps.NotDecided {
 		assumptions = append(assumptions, "not decided by this check: "+n)
+	}
+	coverChecked := 0
+	var deadReturns []string
+	for _, r := range results {
+		coverChecked += r.CoverChecked
+		for _, p := range r.DeadReturns {
+			deadReturns = append(deadReturns, r.Key+" @ "+p)
+		}
+	}
+	assumptions = append(assumptions, fmt.Sprintf("vacuity guard: %d return statements with discharged postconditions were checked for reachability (path condition not refuted); unreachable: %d", coverChecked, len(deadReturns)))
+	for _, d := range deadReturns {
+		assumptions = append(assumptions, "unreachable return (postconditions vacuous there): "+d)
 	}
 	ev := map[string]interface{}{
 		"property_id": id,
